@@ -219,6 +219,12 @@ parse_node_t *do_promotions(parse_node_t *, int);
 parse_node_t *throw_away_call(parse_node_t *);
 parse_node_t *throw_away_mapping(parse_node_t *);
 
+#ifdef NEOLITH_VERIF
+/* verification hook: compiler bookkeeping trace points (event name, cursor after, allocation size) */
+extern void (*verif_compiler_trace)(const char *event, long cursor, long size);
+#define VERIF_CTRACE(ev, cur, sz) do { if (verif_compiler_trace) verif_compiler_trace ((ev), (long)(cur), (long)(sz)); } while (0)
+#endif
+
 #ifndef SUPPRESS_COMPILER_INLINES
 /* inlines - if we're lucky, they'll get honored. */
 static inline void realloc_mem_block(mem_block_t *, size_t);
@@ -240,8 +246,15 @@ add_to_mem_block(int n, const char* data, size_t size)
 {
     mem_block_t *mbp = &mem_block[n];
 
+#ifdef NEOLITH_VERIF
+    VERIF_CTRACE ("mem.req", n, size);
+    VERIF_CTRACE ("mem.before", mbp->current_size, mbp->max_size);
+#endif
     if (mbp->current_size + size > (size_t)mbp->max_size)
         realloc_mem_block(mbp, mbp->current_size + size);
+#ifdef NEOLITH_VERIF
+    VERIF_CTRACE ("mem.alloc", mbp->current_size + size, mbp->max_size);
+#endif
     if (data)
         memcpy(mbp->block + mbp->current_size, data, size);
     mbp->current_size += size;
@@ -253,8 +266,15 @@ allocate_in_mem_block(int n, size_t size)
     mem_block_t *mbp = &mem_block[n];
     char *ret;
 
+#ifdef NEOLITH_VERIF
+    VERIF_CTRACE ("mem.req", n, size);
+    VERIF_CTRACE ("mem.before", mbp->current_size, mbp->max_size);
+#endif
     if (mbp->current_size + size > mbp->max_size)
         realloc_mem_block(mbp, mbp->current_size + size);
+#ifdef NEOLITH_VERIF
+    VERIF_CTRACE ("mem.alloc", mbp->current_size + size, mbp->max_size);
+#endif
     ret = mbp->block + mbp->current_size;
     mbp->current_size += size;
     return ret;
@@ -266,8 +286,15 @@ insert_in_mem_block(int n, int where, size_t size)
     mem_block_t *mbp = &mem_block[n];
     char *p;
 
+#ifdef NEOLITH_VERIF
+    VERIF_CTRACE ("mem.req", n, size);
+    VERIF_CTRACE ("mem.before", mbp->current_size, mbp->max_size);
+#endif
     if (mbp->current_size + size > mbp->max_size)
         realloc_mem_block(mbp, mbp->current_size + size);
+#ifdef NEOLITH_VERIF
+    VERIF_CTRACE ("mem.alloc", mbp->current_size + size, mbp->max_size);
+#endif
     /* memcpy can't handle overlapping blocks on some systems */
     p = mbp->block + mbp->current_size;
     while (p-- > mbp->block + where)
